@@ -30,3 +30,39 @@ LEVEL_TEXT = {
 # properties not (yet) claimed, with the reason (kept current)
 NOT_APPLICABLE = {p: 'not yet built in this round (work in progress; see DESIGN.md §7 order of work)' for p in
                   ['C01','C02','C03','C04','C05','C06','C07','C08','C09','C10','C11','C12','C14','C15','C16','C17','C18','C19','C20']}
+
+NET_MODELLED = ['Codec/Mode framing, both Framed read loops and write paths are hand-modelled (Net/Frame.v, Net/Framed.v) and tied by differential correspondence on scripted in-memory transports (real blocking + tokio Framed vs extracted model)',
+                'framing constants (255/1020/4/x4, VERSION, buffer sizes) and the Packet magic numbers are REGENERATED from the source (Gen/NetConsts.v)',
+                'BytesMut pointer arithmetic, the unsafe spare-capacity slices and allocation reclaim are not modelled: the buffer is an unbounded list and the theorems quantify over every read size >= 1 (slice sizes actually offered are logged in the evidence)',
+                'tokio runtime (timer wheel, wakers) is not modelled: the 90 s timeout appears as a transport event']
+NET_ASSUME = ['the packet layer never panics (forall b, parse b <> Panic): hypothesis of the session theorem, discharged for the real packet decoder by C04',
+              'bytes::BytesMut::chunk_mut() is never empty, so every read offers >= 1 byte']
+PROPS.update({
+    'C05': dict(gens=['consts'], coq_targets=['Props/C05.vo'], coqchk_modules=['Props.C05'], group='net', harness='c05', axioms_allowed=[],
+        proved=['session theorem: for every packet layer, mode, list of complete frames, segmentation into non-empty reads and placement of transient errors/timeouts, the non-transient results are exactly one per frame in order then Disconnected, and the transient results are exactly the transport\'s transient events in order (induction over the script; unbounded)',
+                'a complete frame decodes whatever follows it; every strict prefix of a frame yields NeedMore',
+                'blocking and tokio are the same model function (identical sequences by construction; by correspondence on both implementations)'],
+        modelled=NET_MODELLED, assumptions=NET_ASSUME),
+    'C06': dict(gens=['consts'], coq_targets=['Props/C06.vo'], coqchk_modules=['Props.C06'], group='net', harness='c06', axioms_allowed=[],
+        proved=['write_all over any acceptance script: bytes on the transport are always a prefix of the frame; success means exactly the whole frame; a fair script (no failure, >= |frame| ready turns) always completes; successive writes give the concatenation of the frames in call order; the unit written is one complete frame for the mode'],
+        modelled=NET_MODELLED, assumptions=['std Write::write_all / tokio write_all_buf loop semantics (retry on Interrupted / Pending) are modelled by write_all and validated by correspondence']),
+    'C07': dict(gens=['consts'], coq_targets=['Props/C07.vo'], coqchk_modules=['Props.C07'], group='net', harness='c07', axioms_allowed=[],
+        proved=['per decoded packet the outgoing trace is [pong; packet], [packet] or a version rejection: at most one reply, written before the packet is returned',
+                'a reply is written iff the packet is a keep-alive (and not rejected by the gate)',
+                'whole histories under every segmentation: the interleaved write/return trace is the concatenation of the per-frame traces (corollary of the C05 induction)',
+                'the reply is the TINY_NONE frame of the mode ([1,3,0,0] / [4,3,0,0])'],
+        modelled=NET_MODELLED + ['Packet::maybe_pong is tied by correspondence over every (sub-type, reqi) TINY value and every kind; its source shape is pinned by the translator (gen_maybe_pong_pinned, informational)'],
+        assumptions=NET_ASSUME),
+    'C09': dict(gens=['consts'], coq_targets=['Props/C09.vo'], coqchk_modules=['Props.C09'], group='net', harness='c09', axioms_allowed=[],
+        proved=['a decoded packet is rejected iff verification is on, it is a version packet and its version differs from VERSION; the error carries the value',
+                'otherwise it is delivered; VERSION regenerated from lib.rs is 9; position in a history is irrelevant (per-frame expectation inside the C05 session theorem)'],
+        modelled=NET_MODELLED + ['Packet::maybe_verify_version tied by correspondence over all 256 values x on/off x both connections'],
+        assumptions=NET_ASSUME + ['which connect_* arm applies Builder::verify_version is not covered here (relay arms need a network peer); see DESIGN.md C09']),
+})
+LEVEL_TEXT.update({
+    'C05': 'Induction over the transport script in Coq: unbounded sessions, every segmentation, every placement of transient errors, both modes, any packet layer; the model is tied to the real blocking and tokio Framed by differential runs on scripted transports (all compositions of short streams, sessions far beyond the 6120-byte buffer).',
+    'C06': 'Theorems about write_all for every acceptance script (prefix, completeness, fairness, sequencing); tied to the real Framed::write of both connections over scripted transports (all acceptance patterns for short frames, one byte per call for every kind).',
+    'C07': 'Per-packet and whole-history theorems (corollary of the C05 induction, which carries the write trace); tied to the real code on every TINY (sub-type, reqi) value, every kind, and all short histories over a 12-frame alphabet, with outgoing bytes captured per read().',
+    'C09': 'Gate theorem (iff) for all version values and its embedding in the session theorem; VERSION regenerated from source; tied to the real code on all 256 values x on/off x both connections x positions in histories.',
+})
+for k in ['C05','C06','C07','C09']: NOT_APPLICABLE.pop(k, None)
